@@ -197,3 +197,106 @@ pub fn client_call_routing() -> Value {
 		json!({"probe":"client_call_routing","disagrees":false,"histories_tried":7})
 	})
 }
+
+use jsonrpsee_core::params::BatchRequestBuilder;
+
+/// C12 (async/WS client): reply sequences over ids around a batch of n = 3 (all sequences of length 2 and 3 over
+/// ids start-1..=start+3) and n = 4 (all sequences of length 4 over the in-range ids).
+/// Oracle: a successful call returns exactly n entries; entry i is Ok(v) only if v is the value some reply carried under
+/// id start+i; success/failure counts match the entries.
+async fn batch_case(n: usize, rel: Vec<i64>) -> Option<Value> {
+	let (c, mut peer) = mock::client(ClientBuilder::default().request_timeout(std::time::Duration::from_millis(400)));
+	let w = c.request::<u64, _>("warm", rpc_params![]);
+	let hw = tokio::spawn(async move {
+		let req = peer.next().await.unwrap();
+		peer.send(&json!({"jsonrpc":"2.0","id":id_of(&req),"result":1}).to_string());
+		peer
+	});
+	let _ = w.await;
+	let mut peer = hw.await.unwrap();
+	let mut b = BatchRequestBuilder::new();
+	for k in 0..n {
+		b.insert("m", rpc_params![k]).unwrap();
+	}
+	let fut = c.batch_request::<String>(b);
+	let rel2 = rel.clone();
+	let h = tokio::spawn(async move {
+		let req = peer.next().await.unwrap();
+		let arr: Vec<Value> = serde_json::from_str(&req).unwrap();
+		let start = arr[0]["id"].as_u64().unwrap() as i64;
+		let mut out = Vec::new();
+		for (pos, r) in rel2.iter().enumerate() {
+			let id = start + r;
+			out.push(json!({"jsonrpc":"2.0","id":id,"result":format!("id{}#pos{}", id, pos)}));
+		}
+		peer.send(&Value::Array(out).to_string());
+		(peer, start)
+	});
+	let res = fut.await;
+	let (_peer, start) = h.await.unwrap();
+	if let Ok(br) = res {
+		let ok = br.num_successful_calls();
+		let failed = br.num_failed_calls();
+		let entries: Vec<Result<String, String>> = br.into_iter().map(|e| e.map_err(|e| e.message().to_string())).collect();
+		let mut bad = None;
+		if entries.len() != n {
+			bad = Some(format!("returned {} entries for a batch of {}", entries.len(), n));
+		}
+		for (i, e) in entries.iter().enumerate() {
+			if let Ok(v) = e {
+				let want = format!("id{}#", start + i as i64);
+				if !v.starts_with(&want) {
+					bad = Some(format!("entry {i} holds {v:?}, which was sent under another id"));
+				}
+			}
+		}
+		let n_ok = entries.iter().filter(|e| e.is_ok()).count();
+		if ok != n_ok || failed != entries.len() - n_ok {
+			bad = Some(format!("counts ({ok} ok, {failed} failed) do not match entries {entries:?}"));
+		}
+		if let Some(why) = bad {
+			return Some(json!({"probe":"client_batch_positional","disagrees":true,
+				"input": format!("batch of {n} (ids {start}..{}), reply ids (relative to start) {:?}", start + n as i64, rel),
+				"observed": why, "expected":"n entries, entry i filled only by the reply with id start+i, counts matching"}));
+		}
+	}
+	None
+}
+
+pub fn client_batch_positional() -> Value {
+	tokio::runtime::Builder::new_multi_thread().worker_threads(12).enable_all().build().unwrap().block_on(async {
+		let mut cases: Vec<(usize, Vec<i64>)> = Vec::new();
+		for len in [2usize, 3] {
+			let width = 5usize; // relative ids -1..=3
+			for code in 0..width.pow(len as u32) {
+				let mut c = code;
+				let mut rel = Vec::new();
+				for _ in 0..len {
+					rel.push((c % width) as i64 - 1);
+					c /= width;
+				}
+				cases.push((3, rel));
+			}
+		}
+		for code in 0..4usize.pow(4) {
+			let mut c = code;
+			let mut rel = Vec::new();
+			for _ in 0..4 {
+				rel.push((c % 4) as i64);
+				c /= 4;
+			}
+			cases.push((4, rel));
+		}
+		let total = cases.len();
+		for chunk in cases.chunks(64) {
+			let hs: Vec<_> = chunk.iter().cloned().map(|(n, rel)| tokio::spawn(batch_case(n, rel))).collect();
+			for h in hs {
+				if let Ok(Some(v)) = h.await {
+					return v;
+				}
+			}
+		}
+		json!({"probe":"client_batch_positional","disagrees":false,"reply_sequences_tried":total,
+			"bound":"n=3: all reply sequences of length 2,3 over ids start-1..=start+3; n=4: all sequences of length 4 over in-range ids"})
+	})
+}
